@@ -133,7 +133,7 @@ func init() {
 		"the SnapshotSender is constructed as the repository's tests construct it (no signaling connection; transferFn is a harness stub that blocks until released and observes its context)",
 		"every event is run to quiescence under the default schedule; interleavings inside one event are not enumerated by this part",
 		"histories up to the depth bound over 3 receivers; states are merged when the scheduling fields of the real object (statuses, queue, slots, in-flight invocations, staleness) agree",
-	}, Parts: []*PartSpec{{Name: "admission", Harness: "c12", Instrument: true, Shards: 2, GoMaxProcs: 1, ImportMap: quicMap, Timeout: 45 * time.Minute}}})
+	}, Parts: []*PartSpec{{Name: "admission", Harness: "c12", Instrument: true, Shards: 4, GoMaxProcs: 1, ImportMap: quicMap, Timeout: 45 * time.Minute}}})
 }
 
 func init() {
